@@ -1,5 +1,5 @@
 SPECIFICATION Spec
-CONSTANTS Quick = FALSE
+CONSTANTS Quick = TRUE
  ResetScoreC = TRUE
 INVARIANT WithinLimit
 INVARIANT OptimalSingle
